@@ -34,9 +34,11 @@ macro_rules! impl_modulus {
 
             // `R mod MODULUS` where `R = 2^BITS`.
             // Represents 1 in Montgomery form.
-            const ONE: $uint_type = $crate::Uint::MAX
-                .rem_vartime(Self::MODULUS.as_nz_ref())
-                .wrapping_add(&$crate::Uint::ONE);
+            // (computed as `(R - MODULUS) mod MODULUS`, which is also right for modulus 1)
+            const ONE: $uint_type = Self::MODULUS
+                .as_ref()
+                .wrapping_neg()
+                .rem_vartime(Self::MODULUS.as_nz_ref());
 
             // `R^2 mod MODULUS`, used to convert integers to Montgomery form.
             const R2: $uint_type =
